@@ -246,7 +246,9 @@ Definition run_c10 (input : list Z) : list Z :=
                       let spid := if bool_of_z pmode then cpid else pid in
                       let trace := find_trace Hf oc 255 255 l spid in
                       let cand_obs := fun '(key, mode, bump) =>
-                        let r := if mode =? 0 then validate_and_set_seeds Hf oc None l spid key
+                        (* modes: 0 Seeds / 1 SeedsWithBump through Seeded's own validate; 2 / 3 the same two decisions reached
+                           through Init<Seeded<Account<_>>> + CreateIfNeeded on an account that already exists *)
+                        let r := if (mode =? 0) || (mode =? 3) then validate_and_set_seeds Hf oc None l spid key
                                  else validate_and_set_seeds_with_bump Hf oc None l bump spid key in
                         match r with
                         | Ok st =>
